@@ -40,7 +40,10 @@ fn parse_identifiers(input: &str) -> Vec<PreReleaseIdentifier> {
         .split('.')
         .map(|part| {
             if part.chars().all(|c| c.is_ascii_digit()) && (part == "0" || !part.starts_with('0')) {
-                PreReleaseIdentifier::UInt(part.parse().unwrap_or(0))
+                // A numeric identifier above u64::MAX keeps its text instead of collapsing to 0
+                part.parse()
+                    .map(PreReleaseIdentifier::UInt)
+                    .unwrap_or_else(|_| PreReleaseIdentifier::Str(part.to_string()))
             } else {
                 PreReleaseIdentifier::Str(part.to_string())
             }
@@ -56,7 +59,10 @@ fn parse_build_metadata(input: &str) -> Vec<BuildMetadata> {
         .split('.')
         .map(|part| {
             if part.chars().all(|c| c.is_ascii_digit()) && (part == "0" || !part.starts_with('0')) {
-                BuildMetadata::UInt(part.parse().unwrap_or(0))
+                // A numeric identifier above u64::MAX keeps its text instead of collapsing to 0
+                part.parse()
+                    .map(BuildMetadata::UInt)
+                    .unwrap_or_else(|_| BuildMetadata::Str(part.to_string()))
             } else {
                 BuildMetadata::Str(part.to_string())
             }
